@@ -290,4 +290,287 @@ theorem parseStr_encStr (s : Bytes) (hs : ValidUtf8 s) (tail : Bytes) :
   refine ⟨encBody 0 true (gs.flatMap Seg.bytes) ++ 0x22 :: tail, ?_, parseStr_encBody gs hw tail⟩
   simp [encStr, List.append_assoc]
 
+/-! ### number literals -/
+
+theorem spanDigits_append (ds : Bytes) (d : UInt8) (tail : Bytes) (h : ∀ x ∈ ds, isDigit x = true) (hd : isDigit d = false) :
+    spanDigits (ds ++ d :: tail) = (ds, d :: tail) := by
+  induction ds with
+  | nil => simp [spanDigits, hd]
+  | cons x r ih =>
+    have hx := h x List.mem_cons_self
+    have := ih (fun y hy => h y (List.mem_cons_of_mem _ hy))
+    simp [spanDigits, hx, this]
+
+/-- a value delimiter as it follows a member value: `,` or `}` -/
+def IsDelim (d : UInt8) : Prop := d.toNat = 0x2C ∨ d.toNat = 0x7D
+
+/-- `lit` is a number literal the decoder reads back as such: it starts with `-` or a digit, and in front
+of a delimiter the scanner takes exactly `lit` -/
+def NumLit (lit : Bytes) : Prop :=
+  (∃ c r, lit = c :: r ∧ (c.toNat = 0x2D ∨ isDigit c = true)) ∧
+  ∀ d tail, IsDelim d → scanNum (lit ++ d :: tail) = some (lit, d :: tail)
+
+theorem delim_facts {d : UInt8} (h : IsDelim d) :
+    isDigit d = false ∧ d.toNat ≠ 0x2E ∧ d.toNat ≠ 0x65 ∧ d.toNat ≠ 0x45 ∧ d.toNat ≠ 0x2D ∧ isWs d = false := by
+  unfold IsDelim at h
+  unfold isDigit isWs
+  rcases h with h | h <;> simp [h]
+
+theorem scanTail_delim (d : UInt8) (tail : Bytes) (h : IsDelim d) :
+    scanFrac (d :: tail) = some ([], d :: tail) ∧ scanExp (d :: tail) = some ([], d :: tail) := by
+  obtain ⟨_, h2, h3, h4, _, _⟩ := delim_facts h
+  constructor
+  · simp [scanFrac, h2]
+  · simp [scanExp, h3, h4]
+
+theorem scanInt_digits (ds : Bytes) (d : UInt8) (tail : Bytes) (hne : ds ≠ []) (hd : ∀ x ∈ ds, isDigit x = true)
+    (hz : ds.head? = some 0x30 → ds.length = 1) (h : IsDelim d) :
+    scanInt (ds ++ d :: tail) = some (ds, d :: tail) := by
+  unfold scanInt
+  simp only []
+  rw [spanDigits_append ds d tail hd (delim_facts h).1]
+  simp only []
+  have h1 : ds.isEmpty = false := by cases ds <;> simp_all
+  rw [h1]
+  simp only [Bool.false_eq_true, if_false]
+  rw [if_neg]
+  intro hc
+  have := hz hc.1
+  omega
+
+/-- every integer literal without superfluous leading zeros, with or without a sign -/
+theorem numLit_int (ds : Bytes) (hne : ds ≠ []) (hd : ∀ x ∈ ds, isDigit x = true)
+    (hz : ds.head? = some 0x30 → ds.length = 1) : NumLit ds ∧ NumLit (0x2D :: ds) := by
+  obtain ⟨c, r, rfl⟩ := List.exists_cons_of_ne_nil hne
+  have hc := hd c List.mem_cons_self
+  have hcm : c.toNat ≠ 0x2D := by
+    intro e
+    unfold isDigit at hc
+    simp [e] at hc
+  constructor
+  · refine ⟨⟨c, r, rfl, Or.inr hc⟩, ?_⟩
+    intro d tail h
+    unfold scanNum
+    simp only [List.cons_append, if_neg hcm]
+    have := scanInt_digits (c :: r) d tail hne hd hz h
+    simp only [List.cons_append] at this
+    rw [this]
+    simp only []
+    rw [(scanTail_delim d tail h).1]
+    simp only []
+    rw [(scanTail_delim d tail h).2]
+    simp
+  · refine ⟨⟨0x2D, c :: r, rfl, Or.inl (by decide)⟩, ?_⟩
+    intro d tail h
+    unfold scanNum
+    have h2d : (0x2D : UInt8).toNat = 0x2D := by decide
+    simp only [List.cons_append, h2d, if_true]
+    have := scanInt_digits (c :: r) d tail hne hd hz h
+    simp only [List.cons_append] at this
+    rw [this]
+    simp only []
+    rw [(scanTail_delim d tail h).1]
+    simp only []
+    rw [(scanTail_delim d tail h).2]
+    simp
+
+/-! ### scalar values -/
+
+/-- the values the proved round trip covers: `null`, booleans, number literals, valid UTF-8 strings -/
+inductive ScalarV : JVal → Prop where
+  | null : ScalarV .null
+  | bool (b : Bool) : ScalarV (.bool b)
+  | num (lit : Bytes) (h : NumLit lit) : ScalarV (.num lit)
+  | str (s : Bytes) (h : ValidUtf8 s) : ScalarV (.str s)
+
+theorem skipWs_cons (c : UInt8) (r : Bytes) (h : isWs c = false) : skipWs (c :: r) = c :: r := by
+  simp [skipWs, h]
+
+theorem strB_true : strB "true" = [0x74, 0x72, 0x75, 0x65] := by decide
+theorem strB_false : strB "false" = [0x66, 0x61, 0x6C, 0x73, 0x65] := by decide
+theorem strB_null : strB "null" = [0x6E, 0x75, 0x6C, 0x6C] := by decide
+
+/-- a scalar written by the encoder in front of a delimiter is read back, and starts with no white space -/
+theorem parseScalar_marshal (v : JVal) (hv : ScalarV v) (d : UInt8) (tail : Bytes) (hd : IsDelim d) :
+    parseScalar (marshal v ++ d :: tail) = some (v, d :: tail) ∧
+    ∃ c r, marshal v ++ d :: tail = c :: r ∧ isWs c = false ∧ c.toNat ≠ 0x7B ∧ c.toNat ≠ 0x5B := by
+  cases hv with
+  | null =>
+    simp only [marshal, strB_null]
+    refine ⟨?_, _, _, rfl, by decide, by decide, by decide⟩
+    simp [parseScalar, strB_true, strB_false, strB_null, List.isPrefixOf]
+  | bool b =>
+    cases b with
+    | true =>
+      simp only [marshal, strB_true]
+      refine ⟨?_, _, _, rfl, by decide, by decide, by decide⟩
+      simp [parseScalar, strB_true, strB_false, strB_null, List.isPrefixOf]
+    | false =>
+      simp only [marshal, strB_false]
+      refine ⟨?_, _, _, rfl, by decide, by decide, by decide⟩
+      simp [parseScalar, strB_true, strB_false, strB_null, List.isPrefixOf]
+  | num lit h =>
+    obtain ⟨⟨c, r, rfl, hc⟩, hscan⟩ := h
+    have hm : marshal (.num (c :: r)) = c :: r := by simp [marshal]
+    rw [hm]
+    have hfacts : c.toNat ≠ 0x22 ∧ c.toNat ≠ 0x74 ∧ c.toNat ≠ 0x66 ∧ c.toNat ≠ 0x6E ∧ isWs c = false ∧
+        c.toNat ≠ 0x7B ∧ c.toNat ≠ 0x5B := by
+      unfold isDigit at hc
+      unfold isWs
+      rcases hc with hc | hc
+      · simp [hc]
+      · simp only [Bool.and_eq_true, decide_eq_true_eq] at hc
+        refine ⟨by omega, by omega, by omega, by omega, ?_, by omega, by omega⟩
+        simp
+        omega
+    obtain ⟨f1, f2, f3, f4, f5, f6, f7⟩ := hfacts
+    refine ⟨?_, c, _, rfl, f5, f6, f7⟩
+    have := hscan d tail hd
+    simp only [List.cons_append] at this ⊢
+    unfold parseScalar
+    simp only [if_neg f1, strB_true, strB_false, strB_null]
+    have ne1 : (c == 0x74) = false := by
+      simp only [beq_eq_false_iff_ne, ne_eq]
+      intro e; exact f2 (by rw [e]; decide)
+    have ne2 : (c == 0x66) = false := by
+      simp only [beq_eq_false_iff_ne, ne_eq]
+      intro e; exact f3 (by rw [e]; decide)
+    have ne3 : (c == 0x6E) = false := by
+      simp only [beq_eq_false_iff_ne, ne_eq]
+      intro e; exact f4 (by rw [e]; decide)
+    have e1 : ¬ ((116 : UInt8) = c) := fun e => f2 (by rw [← e]; decide)
+    have e2 : ¬ ((102 : UInt8) = c) := fun e => f3 (by rw [← e]; decide)
+    have e3 : ¬ ((110 : UInt8) = c) := fun e => f4 (by rw [← e]; decide)
+    simp [List.isPrefixOf, ne1, ne2, ne3, e1, e2, e3, this]
+  | str s h =>
+    obtain ⟨body, hb, hp⟩ := parseStr_encStr s h (d :: tail)
+    simp only [marshal]
+    rw [hb]
+    refine ⟨?_, _, _, rfl, by decide, by decide, by decide⟩
+    unfold parseScalar
+    simp only []
+    rw [if_pos (by decide), hp]
+
+theorem parseVal_scalar (f : Nat) (v : JVal) (hv : ScalarV v) (d : UInt8) (tail : Bytes) (hd : IsDelim d) :
+    parseVal (f + 1) (marshal v ++ d :: tail) = some (v, d :: tail) := by
+  obtain ⟨hp, c, r, hcr, _, h7b, h5b⟩ := parseScalar_marshal v hv d tail hd
+  rw [hcr] at hp ⊢
+  rw [parseVal]
+  simp only [if_neg h7b, if_neg h5b]
+  exact hp
+
+/-! ### flat objects -/
+
+/-- keys are valid UTF-8, values are scalars -/
+def FlatObj (o : Obj) : Prop := ∀ kv ∈ o, ValidUtf8 kv.1 ∧ ScalarV kv.2
+
+theorem isWs_quote : isWs 0x22 = false := by decide
+
+theorem parseMembers_step (f : Nat) (k : Bytes) (v : JVal) (hk : ValidUtf8 k) (hv : ScalarV v) (d : UInt8) (hd : IsDelim d)
+    (tail : Bytes) :
+    parseMembers (f + 2) (encStr k ++ 0x3A :: (marshal v ++ d :: tail)) =
+      if d.toNat = 0x2C then (parseMembers (f + 1) (skipWs tail)).map fun p => ((k, v) :: p.1, p.2)
+      else some ([(k, v)], tail) := by
+  obtain ⟨body, hb, hp⟩ := parseStr_encStr k hk (0x3A :: (marshal v ++ d :: tail))
+  obtain ⟨_, c, r, hcr, hws, _, _⟩ := parseScalar_marshal v hv d tail hd
+  have hval := parseVal_scalar f v hv d tail hd
+  rw [hb, parseMembers]
+  try simp only []
+  rw [if_pos (by decide), hp]
+  try simp only []
+  rw [skipWs_cons _ _ (by decide)]
+  try simp only []
+  rw [if_pos (by decide)]
+  have hsk : skipWs (marshal v ++ d :: tail) = marshal v ++ d :: tail := by
+    rw [hcr]; exact skipWs_cons c r hws
+  rw [hsk, hval]
+  try simp only []
+  rw [skipWs_cons _ _ (delim_facts hd).2.2.2.2.2]
+  try simp only []
+  rcases hd with h | h
+  · rw [if_pos h, if_pos h]
+    cases parseMembers (f + 1) (skipWs tail) with
+    | none => rfl
+    | some p => rfl
+  · rw [if_neg (by omega), if_pos h, if_neg (by omega)]
+
+theorem marshalMembers_head (k : Bytes) (v : JVal) (r : Obj) :
+    ∃ x, marshalMembers ((k, v) :: r) = 0x22 :: x := by
+  cases r with
+  | nil => exact ⟨encBody 0 true k ++ 0x22 :: 0x3A :: marshal v, by simp [marshalMembers, encStr]⟩
+  | cons m r' =>
+    exact ⟨encBody 0 true k ++ 0x22 :: 0x3A :: (marshal v ++ 0x2C :: marshalMembers (m :: r')), by simp [marshalMembers, encStr]⟩
+
+theorem parseMembers_marshal (o : Obj) (hf : FlatObj o) (hne : o ≠ []) :
+    ∀ f, o.length ≤ f → ∀ tail, parseMembers (f + 1) (marshalMembers o ++ 0x7D :: tail) = some (o, tail) := by
+  induction o with
+  | nil => exact absurd rfl hne
+  | cons kv r ih =>
+    obtain ⟨k, v⟩ := kv
+    obtain ⟨hk, hv⟩ := hf (k, v) List.mem_cons_self
+    intro f hfl tail
+    obtain ⟨f', rfl⟩ : ∃ f', f = f' + 1 := ⟨f - 1, by simp at hfl; omega⟩
+    cases r with
+    | nil =>
+      have : marshalMembers [(k, v)] ++ 0x7D :: tail = encStr k ++ 0x3A :: (marshal v ++ 0x7D :: tail) := by
+        simp [marshalMembers, List.append_assoc]
+      rw [this, parseMembers_step f' k v hk hv 0x7D (Or.inr (by decide)) tail]
+      rw [if_neg (by decide)]
+    | cons m r' =>
+      have : marshalMembers ((k, v) :: m :: r') ++ 0x7D :: tail =
+          encStr k ++ 0x3A :: (marshal v ++ 0x2C :: (marshalMembers (m :: r') ++ 0x7D :: tail)) := by
+        simp [marshalMembers, List.append_assoc]
+      rw [this, parseMembers_step f' k v hk hv 0x2C (Or.inl (by decide)) _]
+      rw [if_pos (by decide)]
+      obtain ⟨x, hx⟩ := marshalMembers_head m.1 m.2 r'
+      have hsk : skipWs (marshalMembers (m :: r') ++ 0x7D :: tail) = marshalMembers (m :: r') ++ 0x7D :: tail := by
+        rw [hx]; exact skipWs_cons _ _ isWs_quote
+      rw [hsk, ih (fun kv hkv => hf kv (List.mem_cons_of_mem _ hkv)) (by simp) f' (by simp at hfl ⊢; omega) tail]
+      rfl
+
+theorem marshalMembers_length (o : Obj) : o.length ≤ (marshalMembers o).length := by
+  induction o with
+  | nil => simp
+  | cons kv r ih =>
+    obtain ⟨k, v⟩ := kv
+    cases r with
+    | nil => simp [marshalMembers, encStr]
+    | cons m r' =>
+      simp only [marshalMembers, List.length_append, List.length_cons] at ih ⊢
+      simp only [encStr, List.length_append, List.length_cons, List.length_nil]
+      omega
+
+theorem parseVal_obj (n : Nat) (o : Obj) (hc : Canonical o) (hf : FlatObj o) (hn : o.length ≤ n) :
+    parseVal (n + 2) (0x7B :: (marshalMembers o ++ [0x7D])) = some (.obj o, []) := by
+  rw [parseVal]
+  try simp only []
+  rw [if_pos (by decide)]
+  cases o with
+  | nil =>
+    simp [marshalMembers, skipWs, isWs]
+  | cons kv r =>
+    obtain ⟨k, v⟩ := kv
+    obtain ⟨x, hx⟩ := marshalMembers_head k v r
+    have hsk : skipWs (marshalMembers ((k, v) :: r) ++ [0x7D]) = 0x22 :: (x ++ [0x7D]) := by
+      rw [hx]; exact skipWs_cons _ _ isWs_quote
+    rw [hsk]
+    try simp only []
+    rw [if_neg (by decide)]
+    have hpm := parseMembers_marshal ((k, v) :: r) hf (by simp) n hn []
+    rw [hx] at hpm
+    simp only [List.cons_append] at hpm
+    rw [hpm]
+    simp [normalize_canonical _ hc]
+
+/-- **`unmarshalLogEntry ∘ json.Marshal` is the identity** on key-sorted maps with valid UTF-8 keys and scalar
+values (strings of valid UTF-8, number literals, booleans, `null`). -/
+theorem decodeTop_marshal (o : Obj) (hc : Canonical o) (hf : FlatObj o) :
+    decodeTop (marshal (.obj o)) = some (some o) := by
+  unfold decodeTop
+  have hm : marshal (.obj o) = 0x7B :: (marshalMembers o ++ [0x7D]) := by simp [marshal]
+  rw [hm, skipWs_cons _ _ (by decide)]
+  have hl : (0x7B :: (marshalMembers o ++ [0x7D])).length + 1 = ((marshalMembers o).length + 1) + 2 := by simp
+  rw [hl, parseVal_obj _ o hc hf (Nat.le_succ_of_le (marshalMembers_length o))]
+  simp [skipWs]
+
 end AcraModel.AuditLog
